@@ -147,11 +147,17 @@ func (s *Service) proposeBlock(ctx context.Context,
 		}
 	}
 
+	builderBoostFactor := s.builderBoostFactor
+	if auctionResults == nil {
+		// There is no auction (or it failed), so no relay could unblind a builder's block:
+		// have the beacon node build the block itself.
+		builderBoostFactor = 0
+	}
 	proposalResponse, err := s.proposalProvider.Proposal(ctx, &api.ProposalOpts{
 		Slot:               duty.Slot(),
 		RandaoReveal:       duty.RANDAOReveal(),
 		Graffiti:           graffiti,
-		BuilderBoostFactor: &s.builderBoostFactor,
+		BuilderBoostFactor: &builderBoostFactor,
 	})
 	if err != nil {
 		return errors.Wrap(err, "failed to obtain proposal")
